@@ -1,6 +1,7 @@
 import LoraVerif.Props.C05
 import LoraVerif.Props.TieA.C05
 import LoraVerif.Props.C05Size
+import LoraVerif.Props.TieA.MacRfC05
 /-!
 # C05 — the module `./check C05` builds: the property theorems (`Props/C05.lean`) together with the
 tie-A equalities between the hand model's constants and the items regenerated from the current
